@@ -62,8 +62,29 @@ func init() {
 						n++
 						removes := false
 						for _, c := range callsInDeep(ifs.Body) {
-							if g := p.Callee(f.Pkg, c); g != nil && g.FullName() == "os.Remove" && len(c.Args) == 1 && identObj(info, c.Args[0]) == name {
+							g := p.Callee(f.Pkg, c)
+							if g == nil {
+								continue
+							}
+							if g.FullName() == "os.Remove" && len(c.Args) == 1 && identObj(info, c.Args[0]) == name {
 								removes = true
+							}
+							// a helper of the package that is handed the name and removes the file named by that parameter
+							if h := p.FnOfObj(g); h != nil && h.Short == "manager" && h.Lit == nil && h.Body() != nil && h.Decl.Type.Params != nil {
+								k := 0
+								for _, fld := range h.Decl.Type.Params.List {
+									for _, nm := range fld.Names {
+										if k < len(c.Args) && identObj(info, c.Args[k]) == name {
+											po := h.Pkg.TypesInfo.Defs[nm]
+											for _, c2 := range callsInDeep(h.Body()) {
+												if g2 := p.Callee(h.Pkg, c2); g2 != nil && g2.FullName() == "os.Remove" && len(c2.Args) == 1 && identObj(h.Pkg.TypesInfo, c2.Args[0]) == po {
+													removes = true
+												}
+											}
+										}
+										k++
+									}
+								}
 							}
 						}
 						key := fmt.Sprintf("%s failure of index.NewReader", f.Key())
